@@ -288,6 +288,10 @@ def verify_function(src: Source, reg: Registry, contract: Contract, prefix: str,
             if kind in (BRK, CONT):
                 raise Unsupported("break/continue at function level")
             check_exit(eng, contract, kind, s, v, self_ref, args, frame)
+    except z3.Z3Exception as e:
+        # a clause of the sidecar does not type-check against what the code now computes (e.g. a loop over another kind of element)
+        rep.error = f"unsupported: a contract clause does not fit the code any more ({str(e)[:80]})"
+        rep.error_kind = "unsupported"
     except Unsupported as e:
         rep.error = f"unsupported: {e}"
         rep.error_kind = "unsupported"
